@@ -1,4 +1,13 @@
-(* C20 - placeholder until the theorems are in place. *)
-Require Import RQ.Base.
-Theorem C20_placeholder : True. Proof. exact I. Qed.
-Print Assumptions C20_placeholder.
+(* C20 - PathBuilder helpers and Path::transform produce the documented geometry.
+   PARTIAL: rect, transform and finish are proved (structure; the coordinates are the f32 sums / products of the code);
+   the arc's radius band, angles and direction are checked numerically on every output of the crate (lyon is an oracle). *)
+Require Import RQ.Base RQ.F32 RQ.Raster RQ.PathF RQ.PathOps RQ.MiscProofs.
+
+Theorem C20_rect_ops_partial : forall x y w h,
+  builder_rect x y w h = [MoveTo (x, y); LineTo (fadd x w, y); LineTo (fadd x w, fadd y h); LineTo (x, fadd y h); Close].
+Proof. exact rect_ops. Qed.
+Theorem C20_transform_maps_every_point_partial : forall t p,
+  length (p_ops (path_transform t p)) = length (p_ops p) /\ p_winding (path_transform t p) = p_winding p /\
+  forall i, nth i (p_ops (path_transform t p)) Close = op_transform t (nth i (p_ops p) Close).
+Proof. exact transform_preserves_structure. Qed.
+Print Assumptions C20_transform_maps_every_point_partial.
